@@ -1,4 +1,5 @@
 import RedisEmu.Block
+import RedisEmu.CaptureLock
 import Mathlib.Tactic.SplitIfs
 /-
   C12 — how blocking ends (partial). A small model of one blocked command's `select` over its three
@@ -97,5 +98,173 @@ theorem release_clears (c : Capture) : c.release.mailbox = none ∧ c.release.ca
     values): ending client A's block leaves client B blocked -/
 theorem unblock_is_per_client (a b : Capture) (err : Option String) :
     ((a.unblock err).1, b).2 = b := rfl
+
+/-! ### the capture word under concurrent checks (D76)
+
+`unblock()` (CLIENT UNBLOCK, CLIENT KILL, Close) and `isBlocked()` (CLIENT LIST) run on other goroutines
+than the connection that owns the word. -/
+
+/-- a checker that is inside its check and displaced a real state (not another checker's marker) -/
+def Holder (s : CLState) (i : Nat) : Prop := ∃ v, s.saved i = some v ∧ v ≠ CS.checking
+
+/-- the word reads CS_CHECKING exactly while some checker holds the real state, and at most one does -/
+structure CLInv (s : CLState) : Prop where
+  unique : ∀ i j, Holder s i → Holder s j → i = j
+  marker : s.word = CS.checking ↔ ∃ i, Holder s i
+
+theorem clinv_init : CLInv {} := by
+  constructor
+  · intro i j hi; rcases hi with ⟨v, hv, _⟩; simp at hv
+  · constructor
+    · intro h; simp at h
+    · rintro ⟨i, v, hv, _⟩; simp at hv
+
+theorem holder_setSaved_ne (s : CLState) (w : CS) (i j : Nat) (v : Option CS) (hne : j ≠ i) :
+    Holder { word := w, saved := setSaved s.saved i v } j ↔ Holder s j := by
+  unfold Holder setSaved; simp [hne]
+
+theorem holder_setSaved_self (s : CLState) (w : CS) (i : Nat) (v : Option CS) :
+    Holder { word := w, saved := setSaved s.saved i v } i ↔ ∃ x, v = some x ∧ x ≠ CS.checking := by
+  unfold Holder setSaved; simp
+
+theorem clstep_swapIn_none (r : Bool) (s : CLState) (i : Nat) (h : s.saved i = none) :
+    clstep r s (.swapIn i) = { word := .checking, saved := setSaved s.saved i (some s.word) } := by
+  simp [clstep, h]
+
+theorem clstep_swapIn_some (r : Bool) (s : CLState) (i : Nat) (v : CS) (h : s.saved i = some v) :
+    clstep r s (.swapIn i) = s := by
+  simp [clstep, h]
+
+theorem clstep_putBack_none (r : Bool) (s : CLState) (i : Nat) (h : s.saved i = none) :
+    clstep r s (.putBack i) = s := by
+  simp [clstep, h]
+
+theorem clstep_putBack_some (r : Bool) (s : CLState) (i : Nat) (v : CS) (h : s.saved i = some v) :
+    clstep r s (.putBack i) =
+      { word := if r && v == .checking then s.word else v, saved := setSaved s.saved i none } := by
+  simp [clstep, h]
+
+theorem clinv_step (s : CLState) (st : CLStep) (h : CLInv s) : CLInv (clstep true s st) := by
+  cases st with
+  | swapIn i =>
+    cases hs : s.saved i with
+    | some v => rw [clstep_swapIn_some true s i v hs]; exact h
+    | none =>
+      rw [clstep_swapIn_none true s i hs]
+      have hni : ¬ Holder s i := by rintro ⟨v, hv, _⟩; rw [hs] at hv; cases hv
+      constructor
+      · intro a b ha hb
+        by_cases hai : a = i <;> by_cases hbi : b = i
+        · rw [hai, hbi]
+        · -- a = i is a holder, so the word was real: nobody else held it
+          subst hai
+          have hw := (holder_setSaved_self s .checking a (some s.word)).mp ha
+          rcases hw with ⟨x, hx, hxc⟩
+          cases hx
+          have hb' := (holder_setSaved_ne s .checking a b (some s.word) hbi).mp hb
+          exact absurd (h.marker.mpr ⟨b, hb'⟩) hxc
+        · subst hbi
+          have hw := (holder_setSaved_self s .checking b (some s.word)).mp hb
+          rcases hw with ⟨x, hx, hxc⟩
+          cases hx
+          have ha' := (holder_setSaved_ne s .checking b a (some s.word) hai).mp ha
+          exact absurd (h.marker.mpr ⟨a, ha'⟩) hxc
+        · exact h.unique a b ((holder_setSaved_ne s .checking i a _ hai).mp ha) ((holder_setSaved_ne s .checking i b _ hbi).mp hb)
+      · constructor
+        · intro _
+          by_cases hw : s.word = CS.checking
+          · rcases h.marker.mp hw with ⟨j, hj⟩
+            have hji : j ≠ i := fun e => hni (e ▸ hj)
+            exact ⟨j, (holder_setSaved_ne s .checking i j _ hji).mpr hj⟩
+          · exact ⟨i, (holder_setSaved_self s .checking i (some s.word)).mpr ⟨s.word, rfl, hw⟩⟩
+        · intro _; rfl
+  | putBack i =>
+    cases hs : s.saved i with
+    | none => rw [clstep_putBack_none true s i hs]; exact h
+    | some v =>
+      rw [clstep_putBack_some true s i v hs]
+      simp only [Bool.true_and]
+      by_cases hv : v = CS.checking
+      · -- i only displaced a marker: the word stays, the holders stay
+        have hni : ¬ Holder s i := by rintro ⟨x, hx, hxc⟩; rw [hs] at hx; cases hx; exact hxc hv
+        simp only [hv, beq_self_eq_true, if_true]
+        constructor
+        · intro a b ha hb
+          have hai : a ≠ i := fun e => by
+            have := (holder_setSaved_self s s.word i none).mp (e ▸ ha); simp at this
+          have hbi : b ≠ i := fun e => by
+            have := (holder_setSaved_self s s.word i none).mp (e ▸ hb); simp at this
+          exact h.unique a b ((holder_setSaved_ne s s.word i a _ hai).mp ha) ((holder_setSaved_ne s s.word i b _ hbi).mp hb)
+        · constructor
+          · intro hw
+            rcases h.marker.mp hw with ⟨j, hj⟩
+            have hji : j ≠ i := fun e => hni (e ▸ hj)
+            exact ⟨j, (holder_setSaved_ne s s.word i j _ hji).mpr hj⟩
+          · rintro ⟨j, hj⟩
+            have hji : j ≠ i := fun e => by
+              have := (holder_setSaved_self s s.word i none).mp (e ▸ hj); simp at this
+            exact h.marker.mpr ⟨j, (holder_setSaved_ne s s.word i j _ hji).mp hj⟩
+      · -- i is the holder: it puts the real state back and nobody holds any more
+        have hi : Holder s i := ⟨v, hs, hv⟩
+        have hb : (v == CS.checking) = false := by simpa using hv
+        simp only [hb, Bool.false_eq_true, if_false]
+        have none_left : ∀ j, ¬ Holder { word := v, saved := setSaved s.saved i none } j := by
+          intro j hj
+          by_cases hji : j = i
+          · have := (holder_setSaved_self s v i none).mp (hji ▸ hj); simp at this
+          · exact hji (h.unique j i ((holder_setSaved_ne s v i j _ hji).mp hj) hi)
+        constructor
+        · intro a b ha _; exact absurd ha (none_left a)
+        · constructor
+          · intro hw; exact absurd hw hv
+          · rintro ⟨j, hj⟩; exact absurd hj (none_left j)
+  | cas old new =>
+    unfold clstep
+    by_cases hc : old = CS.checking ∨ new = CS.checking
+    · simp only [hc, if_true]; exact h
+    · simp only [hc, if_false]
+      by_cases hw : s.word = old
+      · simp only [hw, if_true]
+        have hold : old ≠ CS.checking := fun e => hc (Or.inl e)
+        have hnew : new ≠ CS.checking := fun e => hc (Or.inr e)
+        have nohold : ¬ ∃ i, Holder s i := fun hh => hold (hw ▸ h.marker.mpr hh)
+        constructor
+        · intro a b ha _; exact absurd ⟨a, ha⟩ nohold
+        · constructor
+          · intro e; exact absurd e hnew
+          · intro hh; exact absurd hh nohold
+      · simp only [hw, if_false]; exact h
+
+/-- the invariant holds after every interleaving of checks and owner transitions (repaired code) -/
+theorem clinv_reachable (steps : List CLStep) : CLInv (clrun true {} steps) := by
+  have : ∀ s, CLInv s → CLInv (clrun true s steps) := by
+    induction steps with
+    | nil => intro s h; exact h
+    | cons st r ih => intro s h; exact ih _ (clinv_step s st h)
+  exact this {} clinv_init
+
+/-- **The capture word never gets stuck.** Whatever CLIENT UNBLOCK / KILL / LIST / Close and the owning
+    connection did, in whatever interleaving: once no check is in progress the word is not CS_CHECKING,
+    so `capture()`, `unblock()` and `isBlocked()` (which spin while they read CS_CHECKING) can proceed. -/
+theorem capture_word_never_stuck (steps : List CLStep)
+    (quiet : ∀ i, (clrun true {} steps).saved i = none) :
+    (clrun true {} steps).word ≠ CS.checking := by
+  intro hw
+  rcases (clinv_reachable steps).marker.mp hw with ⟨i, v, hv, _⟩
+  rw [quiet i] at hv; cases hv
+
+/-- D76 on the code before the repair: two overlapping checks (A swaps in, B swaps in and displaces A's
+    marker, A puts the real state back, B puts the marker back) leave CS_CHECKING behind with no check in
+    progress — every later `capture`, `unblock` and `isBlocked` on that connection spins forever. -/
+theorem capture_word_stuck_before_repair :
+    let s := clrun false {} [.swapIn 0, .swapIn 1, .putBack 0, .putBack 1]
+    s.word = CS.checking ∧ s.saved 0 = none ∧ s.saved 1 = none := by
+  decide
+
+/-- the same schedule on the repaired code ends in the real state -/
+example :
+    let s := clrun true {} [.cas .uncaptured .captured, .swapIn 0, .swapIn 1, .putBack 0, .putBack 1]
+    s.word = CS.captured ∧ s.saved 0 = none ∧ s.saved 1 = none := by
+  decide
 
 end RedisEmu
